@@ -29,6 +29,10 @@ V(v) == v[2]
 IsErr(v)  == v[1] = "x"
 IsInt(v)  == v[1] = "i"
 IsNone(v) == v[1] = "n"
+(* a float NaN: a value that is unequal to everything, itself included (python's !=) *)
+NaN == <<"nan">>
+IsNaN(v) == v[1] = "nan"
+NeqV(a, b) == a # b \/ IsNaN(a) \/ IsNaN(b)
 IsIntEq(v, c) == v[1] = "i" /\ v[2] = c
 
 RECURSIVE Gcd(_, _)
@@ -64,6 +68,7 @@ Apply(f, x) ==
       [] f.n = "snd"     -> V(x)[2]
       [] f.n = "fstmodc" -> IntV(V(V(x)[1]) % f.c)
       [] f.n = "noneIf"  -> IF IsIntEq(x, f.c) THEN None ELSE x
+      [] f.n = "nanIf"   -> IF IsIntEq(x, f.c) THEN NaN ELSE x
       [] f.n = "failIf"  -> IF IsIntEq(x, f.c) THEN ErrV(f.c) ELSE x
       [] f.n = "failMod" -> IF IsInt(x) /\ V(x) % 3 = f.c THEN ErrV(V(x)) ELSE x
       [] f.n = "list3"   -> LstV(<<x, IntV(V(x) + 10), IntV(V(x) + 20)>>)
